@@ -1,7 +1,7 @@
 (** * C19: concrete witnesses -- non-vacuity of the hypotheses, and refutations, on the real instance
     and (executed by [vm_compute]) on the primitive-float instance that runs against the crate. *)
 From Coq Require Import ZArith Reals Lra Bool List Psatz Floats.
-From G3 Require Import Model.Num Model.NumF Model.Base Model.Vec Model.BBox Model.Transform Model.Hit Model.Segment Model.SegmentFixed
+From G3 Require Import Model.Num Model.NumF Model.Base Model.Vec Model.BBox Model.Transform Model.Hit Model.Segment Model.PinnedSegment
   Model.Triangle Model.Areas Theory.RInst Proofs.C19_vec Proofs.C19_segment Proofs.C19_triangle Proofs.C19_areas.
 Local Open Scope R_scope.
 
@@ -63,13 +63,12 @@ Lemma ex_crossing : seg_get_intersection_pt x_s x_r = Some (1/2, 1/4) /\ coplana
 Proof.
   assert (P : seg_at x_s (1/2) = seg_at x_r (1/4)).
   { unfold seg_at, x_s, x_r, seg_as_vec, seg_new. cbn [sstart send]. vunf. apply v3_eq; cbn [vx vy vz]; lra. }
-  assert (G : exists t, seg_get_intersection_pt x_s x_r = Some t).
-  { apply gip_some_iff. split; [|split].
+  assert (G : seg_get_intersection_pt x_s x_r = Some (1/2, 1/4)).
+  { apply gip_reports; [exact P | |].
     - destruct (vis_same_direction _ _) eqn:E; [|reflexivity]. apply vis_same_direction_spec in E. destruct E as (_ & _ & E & _).
       revert E. unfold x_s, x_r, seg_as_vec, seg_new, e5. cbn [sstart send]. vunf. nra.
-    - intros (A & _). revert A. apply Rabs_lt_tiny_false. unfold x_s, x_r, seg_delta, seg_normal, seg_as_vec, seg_new. cbn [sstart send]. vunf. left. nra.
     - left. unfold x_s, x_r, seg_normal, seg_as_vec, seg_new, e5. cbn [sstart send]. vunf. unfold Rabs. destruct (Rcase_abs _); nra. }
-  destruct G as (t & G). pose proof (gip_complete x_s x_r _ _ t P G) as ->. split; [exact G|]. split.
+  split; [exact G|]. split.
   - exact (common_point_coplanar _ _ _ _ P).
   - apply seg_intersect_spec. exists (1/2), (1/4). split; [exact G|]. split; [unfold crossing_window, e8; lra|].
     unfold seg_at, x_s, seg_as_vec, seg_new. cbn [sstart send]. vunf. apply v3_eq; cbn [vx vy vz]; lra.
@@ -103,17 +102,18 @@ Qed.
 (** ** executed witnesses on primitive floats (what runs against the crate) *)
 Local Open Scope float_scope.
 Definition fs (a b c d e f : float) : Seg float := seg_new (mkV3 a b c) (mkV3 d e f).
-(** F5: skew segments one unit apart, "crossing" at (0.5, 0, 0) *)
+(** F5 (fixed by ec384e6): skew segments one unit apart "crossed" at (0.5, 0, 0) in the pinned code; the live code rejects them *)
 Lemma f5_float :
-  seg_intersect (fs 0 0 0 1 0 0) (fs 0.5 (-1) 1 0.5 1 1) = Some (mkV3 0.5 0 0) /\
-  seg_touches (fs 0 0 0 1 0 0) (fs 0.5 (-1) 1 0.5 1 1) = Some (mkV3 0.5 0 0) /\
-  seg_get_intersection_pt (fs 0 0 0 1 0 0) (fs 0.5 (-1) 1 0.5 1 1) = Some (0.5, 0.5) /\
-  seg_get_intersection_pt_fixed (fs 0 0 0 1 0 0) (fs 0.5 (-1) 1 0.5 1 1) = None.
+  seg_intersect_pinned (fs 0 0 0 1 0 0) (fs 0.5 (-1) 1 0.5 1 1) = Some (mkV3 0.5 0 0) /\
+  seg_touches_pinned (fs 0 0 0 1 0 0) (fs 0.5 (-1) 1 0.5 1 1) = Some (mkV3 0.5 0 0) /\
+  seg_get_intersection_pt_pinned (fs 0 0 0 1 0 0) (fs 0.5 (-1) 1 0.5 1 1) = Some (0.5, 0.5) /\
+  seg_get_intersection_pt (fs 0 0 0 1 0 0) (fs 0.5 (-1) 1 0.5 1 1) = None /\
+  seg_intersect (fs 0 0 0 1 0 0) (fs 0.5 (-1) 1 0.5 1 1) = None /\ seg_touches (fs 0 0 0 1 0 0) (fs 0.5 (-1) 1 0.5 1 1) = None.
 Proof. repeat split; vm_compute; reflexivity. Qed.
-(** F5: common start point *)
+(** F5 (fixed): common start point -- pinned: never reported; live: a touch at the common point, not a crossing *)
 Lemma common_start_float :
-  seg_get_intersection_pt (fs 0 0 0 1 0 0) (fs 0 0 0 0 1 0) = None /\ seg_touches (fs 0 0 0 1 0 0) (fs 0 0 0 0 1 0) = None /\
-  seg_touches_fixed (fs 0 0 0 1 0 0) (fs 0 0 0 0 1 0) = Some (mkV3 0 0 0).
+  seg_get_intersection_pt_pinned (fs 0 0 0 1 0 0) (fs 0 0 0 0 1 0) = None /\ seg_touches_pinned (fs 0 0 0 1 0 0) (fs 0 0 0 0 1 0) = None /\
+  seg_touches (fs 0 0 0 1 0 0) (fs 0 0 0 0 1 0) = Some (mkV3 0 0 0) /\ seg_intersect (fs 0 0 0 1 0 0) (fs 0 0 0 0 1 0) = None.
 Proof. repeat split; vm_compute; reflexivity. Qed.
 (** contains_point reads the parameter along x as soon as |dx| > EPSILON: (0,2,0) "is on" (0,0,0)-(1e-15,1,0) *)
 Lemma noise_axis_float :
